@@ -24,7 +24,12 @@ func getEnrichedPackage(logger *console.Logger, packagePath string, pkg PackageD
 	aliases := make(map[label.TargetLabel]*model.Alias)
 	absolutePackagePath := config.GetPathAbsoluteToWorkspaceRoot(packagePath)
 
-	for _, target := range pkg.Targets {
+	for targetIndex, target := range pkg.Targets {
+		if target == nil {
+			// e.g. `"targets": [null]` or an empty YAML list item
+			return nil, fmt.Errorf("target entry %d is empty (package file %s)", targetIndex, pkg.SourceFilePath)
+		}
+
 		var deps []label.TargetLabel
 		// parse labels
 		for _, dep := range target.Dependencies {
@@ -108,7 +113,11 @@ func getEnrichedPackage(logger *console.Logger, packagePath string, pkg PackageD
 		}
 	}
 
-	for _, alias := range pkg.Aliases {
+	for aliasIndex, alias := range pkg.Aliases {
+		if alias == nil {
+			return nil, fmt.Errorf("alias entry %d is empty (package file %s)", aliasIndex, pkg.SourceFilePath)
+		}
+
 		actualLabel, err := label.ParseTargetLabel(packagePath, alias.Actual)
 		if err != nil {
 			return nil, err
